@@ -78,6 +78,46 @@ let load_image path keep_state =
      dbopen := true;
      if not keep_state then Printf.printf "open ok %d\n" u)
 
+(* Coq strings (lists of 8-bit ascii) <-> OCaml strings *)
+let coq_ascii (c : char) : Model.ascii =
+  let n = Char.code c in
+  let b i = (n lsr i) land 1 = 1 in
+  Model.Ascii (b 0, b 1, b 2, b 3, b 4, b 5, b 6, b 7)
+let ocaml_char (a : Model.ascii) : char =
+  match a with Model.Ascii (b0, b1, b2, b3, b4, b5, b6, b7) ->
+    let v b i = if b then 1 lsl i else 0 in
+    Char.chr (v b0 0 + v b1 1 + v b2 2 + v b3 3 + v b4 4 + v b5 5 + v b6 6 + v b7 7)
+let coq_string (s : string) : Model.string =
+  let r = ref Model.EmptyString in
+  for i = String.length s - 1 downto 0 do r := Model.String (coq_ascii s.[i], !r) done; !r
+let ocaml_string (s : Model.string) : string =
+  let b = Buffer.create 64 in
+  let rec go = function Model.EmptyString -> () | Model.String (a, r) -> Buffer.add_char b (ocaml_char a); go r in
+  go s; Buffer.contents b
+let unhex (s : string) : string =
+  String.init (String.length s / 2) (fun i -> Char.chr (int_of_string ("0x" ^ String.sub s (2 * i) 2)))
+(* big integers from decimal / hex text *)
+let z_of_dec (s : string) : Model.z =
+  let neg = String.length s > 0 && s.[0] = '-' in
+  let digits = if neg then String.sub s 1 (String.length s - 1) else s in
+  let ten = z_of_int 10 in
+  let r = ref Model.Z0 in
+  String.iter (fun c -> r := Model.Z.add (Model.Z.mul !r ten) (z_of_int (Char.code c - 48))) digits;
+  if neg then Model.Z.opp !r else !r
+let z_of_hex (s : string) : Model.z =
+  let sixteen = z_of_int 16 in
+  let r = ref Model.Z0 in
+  String.iter (fun c -> let d = if c <= '9' then Char.code c - 48 else Char.code c - 87 in r := Model.Z.add (Model.Z.mul !r sixteen) (z_of_int d)) s;
+  !r
+
+(* yparse TOK;TOK;... with TOK = type:hexstring:int:floatbits (the implementation's tokenizer output) *)
+let run_yparse (arg : string) =
+  let toks = if arg = "" then [] else List.map (fun t ->
+    match String.split_on_char ':' t with
+    | [ty; s; n; f] -> { Model.ttyp = z_of_dec ty; Model.ts = coq_string (unhex s); Model.tn = z_of_dec n; Model.tf = z_of_hex f }
+    | _ -> failwith ("bad token " ^ t)) (String.split_on_char ';' arg) in
+  print_endline (ocaml_string (Model.show_outcome (Model.parse_tokens (nat_of_int 100000) toks)))
+
 (* lock NH NW step step ... : the lock protocol model (Model/Lock.v).  Handle h lives
    in process h, SQLite connection w in process NH+w.  Steps: L1 L2 L3 P U C (handle:
    RLock's three calls, page read, RUnlock, Close) and S1 S2 S3 R Pe X W UA D
@@ -122,6 +162,7 @@ let () =
       else if line.[0] = '#' then (print_endline line; flush stdout)
       else if starts_with "db " line then load_image (String.sub line 3 (String.length line - 3)) false
       else if starts_with "reload " line then load_image (String.sub line 7 (String.length line - 7)) true
+      else if starts_with "yparse" line then run_yparse (if String.length line > 7 then String.sub line 7 (String.length line - 7) else "")
       else if starts_with "crashphases" line then begin
         (* the order of a writer's file operations against Model/Crash.v's protocol automaton *)
         let tok t = match String.split_on_char ':' t with
